@@ -1,6 +1,7 @@
 package main
 
 import (
+	"context"
 	"fmt"
 	"math/rand"
 	"time"
@@ -810,9 +811,40 @@ func buildWaste(rng *vk.Rand, nOps int) *Prog {
 	p := newProg("waste", rng, rng.Range(4, 16), 4)
 	p.flavor = "default"
 	m := wastepb.NewModel()
+	cl := wastepb.WrapApi(wastepb.NewModelServer(m)) // the RPCs have code of their own (paging, the history replay of Pull)
 	spread(rng, p, nOps, func(gi int) {
 		k, pace := rng.Intn(4), rng.Intn(3)
 		switch w := rng.Intn(100); {
+		case w < 8:
+			uo := rng.Chance(1, 3)
+			take := rng.Range(1, 40) // the history replay alone holds 49 records: the reads never wait for a new one
+			p.add(gi, "waste.rpc.PullWasteRecords", func(g *G) {
+				ctx, cancel := context.WithCancel(context.Background())
+				defer cancel()
+				st, err := cl.PullWasteRecords(ctx, &traits.PullWasteRecordsRequest{Name: "dev", UpdatesOnly: uo})
+				if err != nil {
+					g.errs++
+					return
+				}
+				n := take
+				if uo {
+					n = 0 // an updates-only stream may stay silent: open it, cancel it
+				}
+				for i := 0; i < n; i++ {
+					res, err := st.Recv()
+					if err != nil {
+						break
+					}
+					g.sink += readMsg(res)
+				}
+			})
+		case w < 12:
+			size := int32(rng.Range(1, 30))
+			p.add(gi, "waste.rpc.ListWasteRecords", func(g *G) {
+				res, err := cl.ListWasteRecords(context.Background(), &traits.ListWasteRecordsRequest{Name: "dev", PageSize: size})
+				g.err(err)
+				g.sink += readMsg(res)
+			})
 		case w < 25:
 			wr := &traits.WasteRecord{Id: fmt.Sprint("w", rng.Intn(1000)), Weight: float32(rng.Range(1, 99)), WasteCreateTime: ts(rng), Area: "A"}
 			p.add(gi, "waste.AddWasteRecord", func(g *G) {
